@@ -30,6 +30,10 @@ func c06Alphabet() []c06Sym {
 		{"A", `{"t":{"$date":"2024-05-01T10:00:00.123+00:00"},"s":"I","c":"COMMAND","id":51803,"ctx":"conn7","msg":"Slow query","attr":{"type":"command","ns":"shop.orders","command":{"find":"orders","filter":{"email":"alice@example.com","n":{"$gt":41}},"$db":"shop"},"planSummary":"IXSCAN { email: 1 }","durationMillis":7469113720208097282}}`, "object"},
 		{"B", `{"t":{"$date":"2024-05-01T10:00:01.000+00:00"},"s":"I","c":"COMMAND","id":51803,"ctx":"conn8","msg":"Slow query","attr":{"type":"command","ns":"crm.people","command":{"aggregate":"people","pipeline":[{"$search":{"index":"default","text":{"query":"secret words","path":"bio"}}},{"$match":{"age":{"$in":[1,2.50,"x"]}}}],"cursor":{},"$db":"crm"},"remote":"10.1.2.3:5000"}}`, "object"},
 		{"O", `{"t":{"$date":"2024-05-01T10:00:02.000+00:00"},"s":"I","c":"NETWORK","id":22943,"ctx":"listener","msg":"Connection accepted","attr":{"remote":"192.168.1.5:51234","uuid":{"uuid":{"$uuid":"0d6c2a1e-7a0c-4f5e-9c3b-0a1b2c3d4e5f"}},"connectionId":12,"connectionCount":3}}`, "object"},
+		// two lines that share literals across classes and names across roles: any state carried from one line
+		// to the next (value caches, name tables) shows as a sequence whose output is not the concatenation
+		{"C", `{"t":{"$date":"2024-05-01T10:00:05.000+00:00"},"s":"I","c":"COMMAND","id":51803,"ctx":"conn9","msg":"Slow query","attr":{"type":"command","ns":"shop.$cmd","command":{"update":"orders","updates":[{"q":{"ref":"5f1e2d3c4b5a69788796a5ff","when":"2031-07-09T11:22:33.456Z","mail":"alice@example.com"},"u":{"$set":{"orders":"cmd","blob":"QUJDREVGRw=="}}}],"$db":"shop"},"durationMillis":3}}`, "object"},
+		{"D", `{"t":{"$date":"2024-05-01T10:00:06.000+00:00"},"s":"I","c":"COMMAND","id":51803,"ctx":"conn9","msg":"Slow query","attr":{"type":"command","ns":"shop.orders","command":{"aggregate":"orders","pipeline":[{"$match":{"_id":{"$oid":"5f1e2d3c4b5a69788796a5ff"},"at":{"$date":"2031-07-09T11:22:33.456Z"},"bin":{"$binary":{"base64":"QUJDREVGRw==","subType":"00"}},"note":"alice@example.com"}},{"$group":{"_id":"$cmd","n":{"$sum":"$orders"}}}],"cursor":{},"$db":"shop"},"planSummary":"IXSCAN { cmd: 1, orders: 1 }","durationMillis":4}}`, "object"},
 		{"E", ``, "nothing"},
 		{"W", " \t  ", "nothing"},
 		{"T", `this is not json: restarting mongod [initandlisten] pid=1`, "nothing"},
@@ -105,7 +109,7 @@ func c06Run(c *Ctx) {
 	if c.Thorough() {
 		maxLen, cliLen = 5, 3
 	}
-	flagSets := []Flags{{}, {N: true, B: true, I: true, W: true, R: "<x>"}}
+	flagSets := []Flags{{}, {N: true, B: true, I: true, W: true, R: "<x>", F: []string{"shop"}}}
 	eols := []string{"\n", "\r\n"}
 
 	for fi, fl := range flagSets {
@@ -203,15 +207,22 @@ func c06Run(c *Ctx) {
 		Explore(body, ExploreOpts{Bound: -1}, func(x *X) {})
 		c.P.States += int64(len(states))
 		if fi == 0 && c.Shard == 0 {
-			c.Sample(map[string]any{"sequence": "A,T,E,B", "input": c06Text([]string{alpha[0].Text, alpha[5].Text, alpha[4].Text, alpha[1].Text}, "\r\n", false)})
+			c.Sample(map[string]any{"sequence": "A,T,E,B", "input": c06Text([]string{alpha[0].Text, alpha[7].Text, alpha[5].Text, alpha[1].Text}, "\r\n", false)})
 		}
 	}
 	Flags{}.Apply()
-	c06CLI(c, alpha, cliLen)
+	c06CLI(c, alpha, cliLen, Flags{})
+	// the same sequences with name pseudonymisation on: the name table is the only state that outlives a line
+	fl := Flags{N: true, B: true, I: true, W: true, R: "<x>", F: []string{"shop"}}
+	if c.Thorough() {
+		c06CLI(c, alpha, cliLen, fl)
+	} else {
+		c06CLI(c, alpha[:5], cliLen, fl)
+	}
 }
 
 // CLI channels: input {file, gz, stdin} x output {stdout, outputFile}
-func c06CLI(c *Ctx, alpha []c06Sym, maxLen int) {
+func c06CLI(c *Ctx, alpha []c06Sym, maxLen int, fl Flags) {
 	ins := []string{"file", "gz", "stdin"}
 	outs := []string{"stdout", "outfile"}
 	eols := []string{"\n", "\r\n"}
@@ -233,6 +244,7 @@ func c06CLI(c *Ctx, alpha []c06Sym, maxLen int) {
 		if out == "outfile" {
 			args = append(args, "--outputFile", filepath.Join(dir, "out.log"))
 		}
+		args = append(args, fl.CLIArgs("")...)
 		r.Args = args
 		res, err := runCLI(r)
 		if err != nil {
@@ -251,7 +263,8 @@ func c06CLI(c *Ctx, alpha []c06Sym, maxLen int) {
 		return string(res.Stdout), ""
 	}
 	// solo outputs per (symbol) via the simplest channel, checked against in-process reference
-	Flags{}.Apply()
+	fl.Apply()
+	defer Flags{}.Apply()
 	solo := make([]string, len(alpha))
 	for i, s := range alpha {
 		o, problem := runOne(s.Text+"\n", "file", "stdout")
@@ -300,7 +313,7 @@ func c06CLI(c *Ctx, alpha []c06Sym, maxLen int) {
 		}
 		c.P.Transitions += int64(n)
 		c.P.Traces++
-		c.Distinct("cli|" + name)
+		c.Distinct("cli|" + fl.String() + "|" + name)
 		for _, eol := range eols {
 			for _, final := range []bool{true, false} {
 				text := c06Text(lines, eol, final)
